@@ -173,6 +173,24 @@ def gen_kill_rejoin(rng, n_nodes, length):
     return {"kind": "kill", "nodes": ids, "ops": ops, "keys_of": keys_of, "dead": d}
 
 
+def gen_swap_lost(rng, n_nodes=3):
+    """a client replaces instance X by instance Y (its key COUNT stays the same) while node b misses both the
+    remove and the update batch: the anti-entropy round must still drop X and pull Y on b"""
+    ids = list(range(1, n_nodes + 1))
+    a = rng.choice(ids)
+    b = rng.choice([i for i in ids if i != a])
+    base = 10 * a
+    extra = rng.randrange(0, 3)                       # further instances of the same client that do not change
+    ops = []
+    for j in range(extra + 1):
+        ops.append(["reg", a, [a, 1], base + j, rng.randrange(1, 50)])
+    ops += [["flush", a]] + deliver_rounds(ids, 2)
+    ops += [["dereg", a, [a, 1], base], ["reg", a, [a, 1], base + 4, rng.randrange(1, 50)], ["flush", a]]
+    ops += [["drop", a, b]] * 6
+    ops += quiesce(ids) + [["dump"]]
+    return {"kind": "converge", "nodes": ids, "ops": ops, "keys_of": {a: list(range(base, base + 5))}}
+
+
 def gen_rejoin_then_kill(rng, n_nodes, length):
     """node d restarts empty and learns the others' instances through SNAPSHOTS only (no batch, no
     anti-entropy round afterwards); then node x dies: d, too, must drop the instances held by x's connections"""
@@ -498,6 +516,8 @@ def run(chk, replay=None):
     cases.append(gen_stale(rng))
     for _ in range(4 * scale):
         cases.append(gen_last_client_lost(rng, rng.choice([2, 3, 3, 4])))
+    for _ in range(4 * scale):
+        cases.append(gen_swap_lost(rng, rng.choice([2, 3, 3, 4])))
     for _ in range(40 * scale):
         cases.append(gen_random(rng, rng.choice([2, 3, 3, 4]), rng.choice([20, 40, 60])))
     for _ in range(30 * scale):
